@@ -334,8 +334,10 @@ def run(chk, replay=None):
     chk.coverage['timing']['import_s'] = round(_time.time() - t_start, 1)
     rng = chk.rng
     quick = chk.tier == 'quick'
-    ncases = 60 if quick else 700
+    ncases = 60 if quick else 260
     max_nodes = 5 if quick else 7
+    chk.coverage['budget_note'] = ('thorough: 38 directed families x 6, 260 random netlists, 40 edit sequences, 40 multi-tone sources; all six '
+                                   'alternative solver methods on every sixth case, one rotating method on the others (a case costs about 2 s with them)')
     chk.coverage['rule'] = ('random connected netlists (spanning tree of R/C/L/V plus extra R,C,L,V,I,E,G,F,H,TF,GY,TR,AM,O,K,W,TPA/B/G/H/Y/Z,SP*; TL at dc; '
                             'either orientation; numeric and symbolic values sampled at rational points; named nodes) x analysis '
                             '(dc, Laplace step, initial-value, ac); non-trivial = the model matrix is non-singular and Lcapy returns '
@@ -441,7 +443,7 @@ def run(chk, replay=None):
                 internal_diff('matrix', {'case': jcase, 'spoint': fstr(spoint) if spoint is not None else None,
                                          'matrix_A_differs': da[:6], 'matrix_Z_differs': dz[:6]})
         try:
-            with common.time_limit(60):
+            with common.time_limit(20 if quick else 60):      # a case normally takes about a second; a hang is counted only
                 got = L.analyse(case, spoint, solver, conv)
         except SolveFailed as e:
             chk.count('lcapy-error', 'solve:' + str(e)[:50])
@@ -541,7 +543,7 @@ def run(chk, replay=None):
             other = forced['solver']
         if quick or (replay and forced.get('solver')):
             sms = [other]
-        elif idx % 3 == 0:
+        elif idx % 6 == 0:
             sms = SOLVERS[1:]
         else:
             sms = [SOLVERS[1 + idx % (len(SOLVERS) - 1)]]
@@ -554,7 +556,7 @@ def run(chk, replay=None):
                                            for ml, ll in zip(case['lines'], case['lcapy'])])
         for sm in sms:
             try:
-                with common.time_limit(4 if quick else 10):
+                with common.time_limit(4 if quick else 6):
                     got2 = L.analyse(ncase, spoint, sm, conv)
             except common.TimeLimit:
                 chk.count('solver-error', '%s:time-limit' % sm)
@@ -592,7 +594,7 @@ def run(chk, replay=None):
                 if n_cex:
                     break
         # directed stream: every component kind certainly present, terminals off ground, both orientations
-        ndirected = 3 if quick else 14     # 38 families
+        ndirected = 3 if quick else 6      # 38 families
         for kind in gen_netlist.DIRECTED_KINDS:
             for j in range(ndirected):
                 case = gen_netlist.directed_case(rng, kind, floating=(j % 2 == 0))
@@ -774,12 +776,12 @@ def run(chk, replay=None):
             sequence(sq['base'], sq['added'], sq['mode'], sq['analysis'],
                      Fraction(rc['input']['spoint']) if rc['input'].get('spoint') else None)
     else:
-        for k in range(10 if quick else 80):
+        for k in range(10 if quick else 40):
             random_sequence(k)
 
     if not replay:
         chk.coverage['timing']['random_s'] = round(_time.time() - t_start, 1)
-        for k in range(8 if quick else 80):
+        for k in range(8 if quick else 40):
             tone(k)
         chk.coverage['timing']['tone_s'] = round(_time.time() - t_start, 1)
 
